@@ -10,7 +10,7 @@ def plan(tier, seed):
                 timeout=1200 if quick else 3600, vacuity=1,
                 mutants=[{'name': 'temp_under_final_name', 'cfg': {'n': 8}}])
     famK = dict(name='cache_key', module=H, fn='key',
-                jobs=[{'mode': 'option'}, {'mode': 'body'}, {'mode': 'class'}, {'mode': 'filename'}], timeout=900,
+                jobs=[{'mode': 'option'}, {'mode': 'body'}, {'mode': 'body_xml'}, {'mode': 'class'}, {'mode': 'filename'}], timeout=900,
                 vacuity=1, mutants=[{'name': 'digest_basename_only', 'cfg': {'mode': 'filename'}},
                                     {'name': 'digest_drops_strict', 'cfg': {'mode': 'option'}}])
     return dict(
@@ -25,7 +25,7 @@ def plan(tier, seed):
                 'lock is per process) of the same entry with different content, all interleavings of their file-system '
                 'events for %d scheduling decisions (each writer performs 6 events), a reader after every event. Key: '
                 'real digest()/_get_module_name() with hashlib replaced by an injective recorder; two configurations '
-                'differing in exactly one of 9 options / the body / the class / the directory or name of the '
+                'differing in exactly one of 9 options / the body (also XML documents differing only in line endings) / the class / the directory or name of the '
                 'file must get different module file names. Outside: power loss (rename modelled atomic, as POSIX '
                 'promises for a process crash), py_compile\'s own write (stdlib), sys.modules reuse, options that are '
                 'callables or class-level (tokenizer, default_marker, expression_types).' % (10 if quick else 12)),
